@@ -657,8 +657,10 @@ pub fn run_c19(tier: &str, seed: u64) -> CheckResult {
                 Composition::Differs { whole, parts } => {
                     r.evaluations += 1;
                     r.nontrivial.insert(format!("{}|{}", d.name(), c.pos));
+                    // same-named variables in unrelated contracts are a class of their own (stable key)
+                    let key = if c.class == "same-name-variables" { format!("c19:{}:item-interference:{}", d.name(), c.pos) } else { format!("c19:{}:item-interference", d.name()) };
                     r.violate(
-                        &format!("c19:{}:item-interference", d.name()),
+                        &key,
                         &format!("{}: the findings of the file are not the union of the findings of its top-level items ({}: {})", d.name(), c.class, c.pos),
                         replay_argv("c19", d.name(), &c.src),
                         format!("whole == union over items = {}", fmt_offsets(&c.src, &parts)),
@@ -680,7 +682,7 @@ pub fn run_c19(tier: &str, seed: u64) -> CheckResult {
     );
     r.extra.push(("programs_where_detector_reports".into(), counts_json(&nonempty)));
     r.extra.push(("inconclusive_because_of_panic".into(), J::arr_s(inconclusive.into_iter())));
-    r.assumptions.push("items of a generated program never mention each other's state-variable names (names carry the item index)".into());
+    r.assumptions.push("in the pair / triple / quadruple programs the items never mention each other's state-variable names (names carry the item index); same-named variables in unrelated contracts are the separate class `same-name-variables`".into());
     r
 }
 
